@@ -242,6 +242,33 @@ def rule_setters(ctx):
     rule_set_property(ctx, "O10.setters", mode="errors")
 
 
+def rule_delimited_error_helper(ctx):
+    """
+    _raise_delimited_data_format_error turns a csv failure into a DataFormatError for EVERY line number the csv reader
+    may report (0 = before the first line, 1 = first line, later lines): the location arithmetic must not trip the
+    assertions of Location.advance_line.
+    """
+    from ..absint import AbsRaise, Interp, Obj, Opaque, RInt, exc_name
+    from ..tablekit import decide
+
+    model = ctx.model
+    ctx.res.minimum("O10.csv-error", 1)
+    qualname = "cutplace.rowio._raise_delimited_data_format_error"
+
+    def cell(ch):
+        line_number = ch.choose("reader.line_num", [0, 1, 2, 3, 50])
+        interp = Interp(model, ch, externals={"os.path.basename": lambda i, a, k: "data.csv"})
+        reader = Obj("csv.reader", {"line_num": RInt(line_number)})
+        try:
+            interp.call_function(model.func(qualname), ["data.csv", reader, Opaque("csv.Error")], {}, None)
+            outcome = "returned"
+        except AbsRaise as raised:
+            outcome = "raise " + exc_name(raised.value)
+        return ("line_num=%d" % line_number, outcome, "raise DataFormatError")
+
+    decide(ctx, "O10.csv-error", "csv failure -> DataFormatError for every line number", qualname, cell, min_cells=5)
+
+
 def rule_field_rows(ctx):
     """Field rows of a CID: every combination of mark, length shape, example and format is accepted or an InterfaceError."""
     from .c09 import rule_field_row
@@ -249,4 +276,4 @@ def rule_field_rows(ctx):
     rule_field_row(ctx, "O10.fieldrow", mode="errors")
 
 
-RULES = [rule_escapes, rule_oserror_stays_oserror, rule_range_constructors, rule_setters, rule_field_rows]
+RULES = [rule_escapes, rule_oserror_stays_oserror, rule_range_constructors, rule_setters, rule_field_rows, rule_delimited_error_helper]
